@@ -10,9 +10,10 @@ import (
 	"os"
 	"path/filepath"
 	"sort"
+	"strings"
+	"sync/atomic"
 	"time"
 
-	"cosmossdk.io/log"
 	storetypes "cosmossdk.io/store/types"
 	abci "github.com/cometbft/cometbft/abci/types"
 	cmtsecp "github.com/cometbft/cometbft/crypto/secp256k1"
@@ -22,9 +23,9 @@ import (
 	dbm "github.com/cosmos/cosmos-db"
 	"github.com/cosmos/cosmos-sdk/client"
 	"github.com/cosmos/cosmos-sdk/codec"
-	authtx "github.com/cosmos/cosmos-sdk/x/auth/tx"
 	"github.com/cosmos/cosmos-sdk/server"
 	sdk "github.com/cosmos/cosmos-sdk/types"
+	authtx "github.com/cosmos/cosmos-sdk/x/auth/tx"
 	"github.com/goatnetwork/goat/app"
 )
 
@@ -40,13 +41,14 @@ type Node struct {
 	Cfg   *GenesisCfg
 	Home  string
 	TxCfg client.TxConfig
+	errs  *errLog
 
 	// CometSim state
-	Height    int64     // last committed height
-	Time      time.Time // time of last committed block
-	LastHash  []byte    // fake hash of last committed block
-	ValSet    *RefValSet
-	Responses []*abci.ResponseFinalizeBlock
+	Height        int64     // last committed height
+	Time          time.Time // time of last committed block
+	LastHash      []byte    // fake hash of last committed block
+	ValSet        *RefValSet
+	Responses     []*abci.ResponseFinalizeBlock
 	InitialHeight int64 // first height of this chain (1 unless started from an export)
 }
 
@@ -81,13 +83,22 @@ func NewNode(cfg *GenesisCfg, el *ELSim, db dbm.DB) (*Node, error) {
 		"mempool.max-txs":         0,
 		"app-db-backend":          "memdb",
 	}
-	a, err := app.New(log.NewNopLogger(), db, nil, true, opts, server.DefaultBaseappOptions(opts)...)
+	lg := newErrLog()
+	a, err := app.New(lg, db, nil, true, opts, server.DefaultBaseappOptions(opts)...)
 	if err != nil {
 		return nil, err
 	}
-	n := &Node{App: a, DB: db, EL: el, Cfg: cfg, Home: home}
+	n := &Node{App: a, DB: db, EL: el, Cfg: cfg, Home: home, errs: lg}
 	n.TxCfg = authtx.NewTxConfig(codec.NewProtoCodec(a.AppCodec().InterfaceRegistry()), authtx.DefaultSignModes)
 	return n, nil
+}
+
+// LoggedErrors returns (and forgets) the application's most recent error log records.
+func (n *Node) LoggedErrors() string {
+	if n.errs == nil {
+		return ""
+	}
+	return n.errs.take()
 }
 
 func (n *Node) Close() {
@@ -151,15 +162,15 @@ func (n *Node) Restart() error {
 		return err
 	}
 	os.RemoveAll(n.Home)
-	n.App, n.Home, n.TxCfg = a.App, a.Home, a.TxCfg
+	n.App, n.Home, n.TxCfg, n.errs = a.App, a.Home, a.TxCfg, a.errs
 	return nil
 }
 
 // Block describes the consensus inputs of one block.
 type Block struct {
 	TimeDelta   time.Duration
-	Proposer    []byte            // consensus address; nil = node's own validator
-	Absent      map[string]bool   // string(addr) of validators of the previous height that did not sign
+	Proposer    []byte          // consensus address; nil = node's own validator
+	Absent      map[string]bool // string(addr) of validators of the previous height that did not sign
 	Misbehavior []abci.Misbehavior
 	Txs         [][]byte // if nil, PrepareProposal builds them
 	MempoolTxs  [][]byte // what CometBFT's mempool would hand to PrepareProposal
@@ -204,12 +215,30 @@ func (n *Node) Prepare(b *Block) (*abci.ResponsePrepareProposal, error) {
 	if prop == nil {
 		prop = n.NodeAddr()
 	}
-	return n.App.PrepareProposal(&abci.RequestPrepareProposal{
+	req := &abci.RequestPrepareProposal{
 		Height: h, Time: n.Time.Add(b.TimeDelta), ProposerAddress: prop,
 		MaxTxBytes: 4 << 20, LocalLastCommit: abci.ExtendedCommitInfo{}, Txs: b.MempoolTxs,
 		Misbehavior: b.Misbehavior,
-	})
+	}
+	// PrepareProposalHandler gives the engine 1.2 s of wall-clock time. On a saturated machine a
+	// fault-free fake engine can miss that; the proposer then proposes nothing valid and
+	// consensus moves to another round. The harness plays that next round itself (only when no
+	// engine fault is scripted), so that machine load never decides a verdict.
+	for try := 0; ; try++ {
+		if n.errs != nil {
+			n.errs.take()
+		}
+		pp, err := n.App.PrepareProposal(req)
+		if err != nil || n.errs == nil || try >= 3 || n.EL.HasFaults() || !strings.Contains(n.errs.peek(), "context deadline exceeded") {
+			return pp, err
+		}
+		DeadlineRetries.Add(1)
+	}
 }
+
+// DeadlineRetries counts proposal rounds repeated because the wall-clock deadline of
+// PrepareProposalHandler expired without a scripted fault.
+var DeadlineRetries atomic.Int64
 
 // Process runs ProcessProposal for the next height.
 func (n *Node) Process(b *Block, txs [][]byte) (*abci.ResponseProcessProposal, error) {
@@ -289,7 +318,7 @@ func (n *Node) RunBlock(b *Block) *BlockResult {
 	}
 	r.Process = pr
 	if pr.Status != abci.ResponseProcessProposal_ACCEPT {
-		r.Err, r.Stage = fmt.Errorf("proposal rejected"), "process"
+		r.Err, r.Stage = fmt.Errorf("proposal rejected %s", n.LoggedErrors()), "process"
 		return r
 	}
 	fr, err := n.Finalize(b, txs)
